@@ -61,7 +61,9 @@ type evInfo struct {
 	author int
 	t      int64
 	// addr is the specification address: "kind:pubkey" for replaceable kinds,
-	// "kind:pubkey:d" for addressable kinds with a missing d tag read as d="" (NIP-01); "" otherwise.
+	// "kind:pubkey:d" for addressable kinds, "" otherwise. For an event without d tag this is the
+	// address under the reading "missing d = empty d"; the step oracle also evaluates the other
+	// reading (an address of its own), see addrUnder in spec.go.
 	addr string
 	// references of a deletion request
 	eRefs []string
@@ -188,6 +190,7 @@ func init() {
 	addEv("aE", `P kind 30000 d="" @2`, P, 30000, 2, tag("d", ""))
 	addEv("nP", "P kind 30000 no d tag @2", P, 30000, 2)
 	addEv("nQ", "Q kind 30000 no d tag @3", Q, 30000, 3)
+	addEv("nP3", "P kind 30000 no d tag @3 (newer version of nP)", P, 30000, 3)
 	// ephemeral (kind 20001)
 	addEv("eP", "P kind 20001 @1", P, 20001, 1)
 	addEv("eQ", "Q kind 20001 @3", Q, 20001, 3)
